@@ -197,6 +197,36 @@ func checkFileFaults(c *mon.Case, f *fileFixture) {
 		judge(fmt.Sprintf("sequential read with %d blocks unavailable", len(st.Absent)), kind, 0, got, rerr, start, true)
 		c.Sig(fmt.Sprintf("file|%s|subset|kind%d", strings.Split(f.Name, "-")[0], kind), true)
 	}
+	// (2b) a transient fault during AsBytes, then AsBytes again on the same node without faults
+	for k := 1; k <= min(len(spans), 12); k++ {
+		st.ClearFaults()
+		n, err := reify(ls, raw)
+		if err != nil {
+			break
+		}
+		st.FailReadAt = k
+		st.FailErr = store.ErrInjected
+		st.ResetLog()
+		var first []byte
+		var ferr error
+		c.Guard("AsBytes with transient fault", func() { first, ferr = n.AsBytes() })
+		hit := st.InjectedHits > 0
+		st.ClearFaults()
+		if !hit {
+			break
+		}
+		c.Count("faults_injected", 1)
+		if ferr == nil {
+			c.Violation("C12|file|no-error", "AsBytes on %s with load #%d failing returned %d bytes and no error", f.Name, k, len(first))
+		}
+		var again []byte
+		var aerr error
+		c.Guard("AsBytes again", func() { again, aerr = n.AsBytes() })
+		c.Count("reads_checked", 1)
+		if aerr != nil || !bytes.Equal(again, f.Content) {
+			c.Violation("C12|file|stale-after-transient-fault", "%s: after load #%d failed once, a second AsBytes on the same node returned %d of %d bytes, err %v", f.Name, k, len(again), len(f.Content), aerr)
+		}
+	}
 	// (3) the k-th load fails once (transient), for every k, from offset 0 and after seeks
 	offsets := []int64{0}
 	for _, b := range f.Boundaries {
